@@ -8,6 +8,7 @@ import (
 	"os"
 	"os/exec"
 	"path/filepath"
+	"strings"
 	"sync"
 	"sync/atomic"
 	"testing"
@@ -90,6 +91,12 @@ func TestC19(t *testing.T) {
 			scripted(func(r *vp.ScriptRunner) { fmt.Fprintf(r.Out, "1|1|tcp|%s|netrpc\n", addr) })
 		case "fail-line":
 			scripted(func(r *vp.ScriptRunner) { r.Out.Write([]byte("garbage\n")) })
+		case "fail-proto":
+			scripted(func(r *vp.ScriptRunner) { r.Out.Write([]byte("1|1|tcp|127.0.0.1:1|grp\n")) })
+		case "fail-cert":
+			scripted(func(r *vp.ScriptRunner) {
+				r.Out.Write([]byte("1|1|tcp|127.0.0.1:1|netrpc|" + strings.Repeat("A", 80) + "\n"))
+			})
 		case "fail-timeout":
 			cfg.StartTimeout = 150 * time.Millisecond
 			scripted(func(r *vp.ScriptRunner) {})
